@@ -1013,3 +1013,36 @@ Proof.
   split; [vm_compute; discriminate|vm_compute; reflexivity].
 Qed.
 
+
+(* ---------- the recorded finding C08-reserve-valueerror, as a class of inputs ---------- *)
+Lemma fold_reserve_nonneg : forall (os : list (Z * list Z)) a, 0 <= a ->
+  0 <= fold_left (fun acc cd => acc + zlen (snd cd) + 4) os a.
+Proof.
+  induction os as [|cd os IH]; intros a Ha; [exact Ha|]. cbn [fold_left]. apply IH.
+  pose proof (zlen_nonneg (snd cd)). lia.
+Qed.
+
+Lemma compute_opt_reserve_nonneg m pad : 0 <= compute_opt_reserve m pad.
+Proof.
+  unfold compute_opt_reserve. destruct (mopt m) as [o|]; [|lia].
+  pose proof (fold_reserve_nonneg (oopts o) 11 ltac:(lia)). destruct (pad =? 0); lia.
+Qed.
+
+(* whenever the OPT reserve exceeds the effective limit, or the TSIG reserve exceeds what the OPT reserve left
+   of it, Message.to_wire raises the ValueError of Renderer.reserve - with and without prefer_truncation -
+   instead of TooBig *)
+Lemma reserve_valueerror_lemma m o ms rp prefer pad :
+  (eff_limit ms rp < compute_opt_reserve m pad \/
+   exists t, compute_tsig_reserve m = Ok t /\ eff_limit ms rp - compute_opt_reserve m pad < t) ->
+  to_wire m o ms rp prefer pad = Internal iValueError.
+Proof.
+  intros H. unfold to_wire, to_wire_st. cbv zeta.
+  pose proof (compute_opt_reserve_nonneg m pad) as NN.
+  unfold reserve at 1. cbn [maxsz reserved].
+  destruct (Z.ltb_spec (compute_opt_reserve m pad) 0) as [|_]; [lia|].
+  destruct (Z.gtb_spec (compute_opt_reserve m pad) (eff_limit ms rp)) as [G|G]; [reflexivity|].
+  destruct H as [H|(t & ET & H)]; [lia|].
+  cbn [bind]. rewrite ET. cbn [bind]. unfold reserve. cbn [maxsz reserved set_limits].
+  destruct (Z.ltb_spec t 0) as [|_]; [reflexivity|].
+  destruct (Z.gtb_spec t (eff_limit ms rp - compute_opt_reserve m pad)) as [|G2]; [reflexivity|lia].
+Qed.
